@@ -258,7 +258,61 @@ Proof.
   apply renames_perm; [exact P|exact N|apply independent_of_check; exact S].
 Qed.
 
-(* otherwise the order shows (finding D16), evaluated witness *)
+(* ---- since the repair of D16 the code visits the variable's imports in the order of their
+   sorted paths: whatever order the Go map hands them out in, the renames see the same list ---- *)
+
+Definition klt (a b : string * bool) : bool := String.ltb (fst a) (fst b).
+Definition as_imp (kb : string * bool) : imp := mkImp (fst kb) "" (if snd kb then "t" else "f").
+
+Lemma as_imp_inj a b : as_imp a = as_imp b -> a = b.
+Proof.
+  destruct a as [k1 b1], b as [k2 b2]. unfold as_imp. cbn [fst snd]. intros E. inversion E; subst.
+  destruct b1, b2; try discriminate; reflexivity.
+Qed.
+
+Lemma map_as_imp_inj : forall l1 l2, map as_imp l1 = map as_imp l2 -> l1 = l2.
+Proof.
+  induction l1 as [|a l1 IH]; intros [|b l2] E; try discriminate; [reflexivity|].
+  cbn [map] in E.
+  assert (H1 : as_imp a = as_imp b) by (injection E; intros; unfold as_imp; congruence).
+  assert (H2 : map as_imp l1 = map as_imp l2) by (injection E; auto).
+  f_equal; [apply as_imp_inj; exact H1|apply IH; exact H2].
+Qed.
+
+Lemma insert_by_as_imp x l : map as_imp (insert_by klt x l) = insert_by plt (as_imp x) (map as_imp l).
+Proof.
+  induction l as [|y l IH]; [reflexivity|]. cbn [insert_by map].
+  change (plt (as_imp y) (as_imp x)) with (klt y x). destruct (klt y x); cbn [map]; [rewrite IH|]; reflexivity.
+Qed.
+
+Lemma sort_by_as_imp l : map as_imp (sort_by klt l) = sort_by plt (map as_imp l).
+Proof.
+  induction l as [|x l IH]; [reflexivity|]. cbn [sort_by fold_right map].
+  change (fold_right (insert_by klt) [] l) with (sort_by klt l).
+  change (fold_right (insert_by plt) [] (map as_imp l)) with (sort_by plt (map as_imp l)).
+  rewrite insert_by_as_imp, IH. reflexivity.
+Qed.
+
+Theorem C14_var_quals_order_free r1 imps imps' :
+  Permutation imps imps' -> NoDup (map fst imps) -> var_quals r1 imps = var_quals r1 imps'.
+Proof.
+  intros P ND. unfold var_quals. f_equal. fold klt. apply map_as_imp_inj.
+  rewrite !sort_by_as_imp.
+  assert (ND' : NoDup (map i_path (map as_imp imps))).
+  { rewrite map_map. cbn [as_imp i_path]. exact ND. }
+  exact (C14_imports_order (map as_imp imps) (map as_imp imps') (Permutation_map as_imp P) ND').
+Qed.
+
+(* the witness of D16 on the repaired model: one result, whatever the map order *)
+Example C14_renames_fixed :
+  let r1 := [mkImp "x/a" "a" ""; mkImp "x/b" "aMoqParam" ""] in
+  let vs := [mkVar "a" (TParam "x") []; mkVar "b" (TParam "x") []] in
+  map v_name (rename_for_imports vs (var_quals r1 [("x/b", true); ("x/a", true)])) =
+  map v_name (rename_for_imports vs (var_quals r1 [("x/a", true); ("x/b", true)])) /\
+  var_quals r1 [("x/b", true); ("x/a", true)] = ["a"; "aMoqParam"]%string.
+Proof. vm_compute. split; reflexivity. Qed.
+
+(* without the fixed order it shows (what D16 was), evaluated witness *)
 Example C14_renames_refuted :
   let vs := [mkVar "a" (TParam "x") []; mkVar "b" (TParam "x") []] in
   map v_name (rename_for_imports vs ["a"; "aMoqParam"]) <> map v_name (rename_for_imports vs ["aMoqParam"; "a"])
